@@ -291,7 +291,7 @@ func panicText(v value) string {
 type event struct {
 	kind  byte // 'A' assert, 'O' observe, 'R' reach
 	label string
-	cond  *Term   // for 'A' (nil when concrete; then b holds)
+	cond  *Term // for 'A' (nil when concrete; then b holds)
 	b     bool
 	vals  []value // for 'O'
 }
